@@ -149,6 +149,9 @@ def str_value(avoid: frozenset = frozenset()):
         st.builds(lambda w0, ts: " ".join([w0] + ts), WORD,
                   st.lists(st.one_of(WORD, st.sampled_from(["42", "3.14", "1.2.3", "true", "null", '"q s"', '"List<int>"', '"<b>"',
                                                             '"a -> b"', '""', '"x"'])), min_size=1, max_size=4)).map(S("multiword_mixed")),
+        # a bare multi-word value led by a literal (quoted word, boolean, null, version): coalesced like any other
+        st.builds(lambda f, ws: " ".join([f] + ws), st.sampled_from(['"draft"', '"a b"', "true", "false", "null", "1.0.0", '""']),
+                  st.lists(WORD, min_size=1, max_size=3)).map(S("multiword_litfirst")),
         st.sampled_from(["true", "false", "null", "vs", "True", "NULL", "False"]).map(S("reservedlike")),
         st.sampled_from(["42", "-1e5", "007", "3.14", "1e400", "-0", "0x10", "1_000", "+5"]).map(S("numlike")),
         st.sampled_from(["", " ", "// c", "===END===", "---", "A::B", "[a,b]", "60%", "a\\nb", "tab\there", "x\ny",
